@@ -1,5 +1,193 @@
 /-
-C01 — property theorems (stub; nothing proved yet).
+C01 — precipitation conserves solute between matrix and precipitates.
+Theorems about `KawinV.MB` (hand model of PrecipitateModel._calcMassBalance), tied to /repo by
+replaying every logged `_calcMassBalance` call of real runs through the model (tools/corr/C01.py).
+α is any linearly ordered field.
 -/
+import KawinV.Model.MassBalance
+import Mathlib.Tactic.Ring
+import Mathlib.Tactic.Linarith
+import Mathlib.Tactic.FieldSimp
+import Mathlib.Algebra.Order.Field.Basic
+import Mathlib.Algebra.BigOperators.Group.List.Basic
+
+set_option linter.unusedSectionVars false
+set_option linter.unusedVariables false
+set_option linter.unusedSimpArgs false
+
 namespace KawinV.Props.C01
+open KawinV KawinV.MB
+
+variable {α : Type} [Field α] [LinearOrder α] [IsStrictOrderedRing α]
+
+theorem getD_map_range (f : Nat → α) (n e : Nat) (he : e < n) :
+    ((List.range n).map f).getD e 0 = f e := by
+  simp [List.getD_eq_getElem?_getD, List.getElem?_map, List.getElem?_range he]
+
+/-! ### the balance itself -/
+
+/-- **balance**: whenever the total precipitate fraction is below 1 and element e is not clamped,
+the initial content of e equals matrix content × matrix fraction + content held in precipitates. -/
+theorem massBalance_conserves (minDens minComp : α) (x0 prev : List α) (ins : List (PhaseIn α))
+    (e : Nat) (he : e < x0.length)
+    (hsat : sumVolFrac (massBalance minDens minComp x0 prev ins).phases < 1)
+    (hpos : ¬ rawComp x0 (massBalance minDens minComp x0 prev ins).phases e < 0) :
+    x0.getD e 0 =
+      (massBalance minDens minComp x0 prev ins).comp.getD e 0
+          * (1 - sumVolFrac (massBalance minDens minComp x0 prev ins).phases)
+        + sumFconc (massBalance minDens minComp x0 prev ins).phases e := by
+  simp only [massBalance] at *
+  set ps := ins.map (phaseBalance x0.length minDens) with hps
+  have hne : (1 - sumVolFrac ps) ≠ 0 := by linarith
+  unfold composition
+  simp only [hsat, if_true]
+  rw [getD_map_range _ _ _ he]
+  simp only [hpos, if_false]
+  unfold rawComp
+  field_simp
+  ring
+
+/-- **the clamp is the only deviation**: every recorded matrix composition is either the balance
+value or `minComposition`, the latter only where the balance value is negative. -/
+theorem massBalance_clamp (minDens minComp : α) (x0 prev : List α) (ins : List (PhaseIn α))
+    (e : Nat) (he : e < x0.length)
+    (hsat : sumVolFrac (massBalance minDens minComp x0 prev ins).phases < 1) :
+    let s := massBalance minDens minComp x0 prev ins
+    (s.comp.getD e 0 = rawComp x0 s.phases e ∧ ¬ rawComp x0 s.phases e < 0) ∨
+    (s.comp.getD e 0 = minComp ∧ rawComp x0 s.phases e < 0) := by
+  simp only [massBalance] at *
+  set ps := ins.map (phaseBalance x0.length minDens) with hps
+  unfold composition
+  simp only [hsat, if_true]
+  rw [getD_map_range _ _ _ he]
+  by_cases h : rawComp x0 ps e < 0
+  · right; simp [h]
+  · left; simp [h]
+
+/-- **excluded branch, explicit**: with total fraction ≥ 1 the composition is carried over unchanged. -/
+theorem massBalance_saturated (minDens minComp : α) (x0 prev : List α) (ins : List (PhaseIn α))
+    (hsat : ¬ sumVolFrac (massBalance minDens minComp x0 prev ins).phases < 1) :
+    (massBalance minDens minComp x0 prev ins).comp = prev := by
+  simp only [massBalance] at *
+  unfold composition
+  simp [hsat]
+
+/-! ### per-phase content -/
+
+/-- **empty phase**: below the density floor the phase contributes nothing. -/
+theorem phase_empty (nElem : Nat) (minDens : α) (p : PhaseIn α)
+    (h : moment 0 p.N p.R < minDens) :
+    (phaseBalance nElem minDens p).volFrac = 0 ∧ (phaseBalance nElem minDens p).ravg = 0 ∧
+    (∀ e, (phaseBalance nElem minDens p).fconc.getD e 0 = 0) := by
+  unfold phaseBalance
+  simp only [h, if_true, true_and]
+  intro e
+  rw [List.getD_eq_getElem?_getD]
+  by_cases he : e < nElem
+  · simp [List.getElem?_replicate, he]
+  · simp [List.getElem?_replicate, he]
+
+theorem zipWith_sum_mul_left (c : α) (f : α → α → α) (N R : List α) :
+    c * (List.zipWith f N R).sum = (List.zipWith (fun n r => c * f n r) N R).sum := by
+  induction N generalizing R with
+  | nil => simp
+  | cons n ns ih =>
+    cases R with
+    | nil => simp
+    | cons r rs => simp [List.zipWith_cons_cons, List.sum_cons, mul_add, ih]
+
+/-- **content is the PSD sum** (default, infinite-precipitate-diffusion mode): the recorded
+precipitate content of element e in a populated phase is the sum over size classes of
+(particle volume `volRatio·volumeFactor·Rᵢ³`) × population × class-averaged interfacial precipitate
+composition — with the site-type volume factor, so grain-boundary nuclei are covered. -/
+theorem fconc_eq_sum (nElem : Nat) (minDens : α) (p : PhaseIn α) (e : Nat) (he : e < nElem)
+    (hpop : ¬ moment 0 p.N p.R < minDens) (hinf : p.infinite = true) :
+    (phaseBalance nElem minDens p).fconc.getD e 0 =
+      (List.zipWith (fun nr w => p.volRatio * p.volumeFactor * (nr * w))
+        (List.zipWith (fun n r => n * npow r 3) p.N p.R) (p.xb.getD e [])).sum := by
+  unfold phaseBalance
+  simp only [hpop, if_false]
+  rw [getD_map_range _ _ _ he]
+  unfold fconcE wmoment
+  simp only [hinf, if_true]
+  rw [zipWith_sum_mul_left]
+
+/-- the volume fraction of a populated, unsaturated phase is the same sum with composition ≡ 1:
+`Σᵢ (volRatio·volumeFactor·Rᵢ³)·Nᵢ`. -/
+theorem volFrac_eq_sum (nElem : Nat) (minDens : α) (p : PhaseIn α)
+    (hpop : ¬ moment 0 p.N p.R < minDens) (hcap : rawVolFrac p < 1) (hprev : isOne p.prevVolFrac = false) :
+    (phaseBalance nElem minDens p).volFrac =
+      (List.zipWith (fun n r => p.volRatio * p.volumeFactor * (n * npow r 3)) p.N p.R).sum := by
+  unfold phaseBalance
+  simp only [hpop, if_false, hcap, if_true, hprev]
+  unfold rawVolFrac moment
+  rw [zipWith_sum_mul_left]
+  simp
+
+/-- volume fraction never exceeds 1 -/
+theorem volFrac_le_one (nElem : Nat) (minDens : α) (p : PhaseIn α) :
+    (phaseBalance nElem minDens p).volFrac ≤ 1 := by
+  unfold phaseBalance
+  by_cases h1 : moment 0 p.N p.R < minDens
+  · simp [h1]
+  · by_cases h2 : isOne p.prevVolFrac = true
+    · simp [h1, h2]
+    · by_cases h3 : rawVolFrac p < 1
+      · simp [h1, h2, h3, le_of_lt h3]
+      · simp [h1, h2, h3]
+
+/-! ### every step of every run -/
+
+/-- the predicate of C01 on one recorded slice -/
+def Balanced (x0 : List α) (minComp : α) (s : Slice α) : Prop :=
+  sumVolFrac s.phases < 1 →
+    ∀ e, e < x0.length →
+      (s.comp.getD e 0 = minComp ∧ rawComp x0 s.phases e < 0) ∨
+      x0.getD e 0 = s.comp.getD e 0 * (1 - sumVolFrac s.phases) + sumFconc s.phases e
+
+theorem massBalance_balanced (minDens minComp : α) (x0 prev : List α) (ins : List (PhaseIn α)) :
+    Balanced x0 minComp (massBalance minDens minComp x0 prev ins) := by
+  intro hsat e he
+  by_cases h : rawComp x0 (massBalance minDens minComp x0 prev ins).phases e < 0
+  · left
+    rcases massBalance_clamp minDens minComp x0 prev ins e he hsat with h' | h'
+    · exact absurd h h'.2
+    · exact h'
+  · right; exact massBalance_conserves minDens minComp x0 prev ins e he hsat h
+
+/-- **every step, every solve call**: whatever the sequence of inputs (any backend results, any
+grids, either iterator, any split into solve calls), every recorded slice is balanced up to the
+documented clamp. Induction over the run. -/
+theorem kwn_conserves_all_steps (minDens minComp : α) (x0 : List α)
+    (steps : List (List α × List (PhaseIn α))) :
+    ∀ s ∈ recordRun minDens minComp x0 steps, Balanced x0 minComp s := by
+  induction steps with
+  | nil => simp [recordRun]
+  | cons st rest ih =>
+    obtain ⟨prev, ins⟩ := st
+    intro s hs
+    simp only [recordRun, List.mem_cons] at hs
+    rcases hs with rfl | hs
+    · exact massBalance_balanced minDens minComp x0 prev ins
+    · exact ih s hs
+
+/-- the recorded history has one slice per step -/
+theorem recordRun_length (minDens minComp : α) (x0 : List α)
+    (steps : List (List α × List (PhaseIn α))) :
+    (recordRun minDens minComp x0 steps).length = steps.length := by
+  induction steps with
+  | nil => simp [recordRun]
+  | cons st rest ih => obtain ⟨prev, ins⟩ := st; simp [recordRun, ih]
+
+/-! ### non-vacuity -/
+
+/-- a concrete populated, unsaturated, unclamped state: one phase, two classes, one element -/
+def exPhase : PhaseIn ℚ :=
+  { N := [1000, 2000], R := [1/10, 2/10], xb := [[1/4, 1/4]], volRatio := 1, volumeFactor := 4,
+    prevVolFrac := 0, infinite := true, prevFconc := [0], psdOld := [0, 0] }
+
+example : sumVolFrac (massBalance (1/100 : ℚ) (1/1000) [1/2] [1/2] [{ exPhase with N := [1, 2] }]).phases < 1 := by
+  simp [massBalance, phaseBalance, sumVolFrac, exPhase, moment, rawVolFrac, npow, isOne]
+  norm_num
+
 end KawinV.Props.C01
